@@ -279,10 +279,14 @@ class C11(Check):
         methods = {"block": [""], "kitty": ["+L", "+W"], "iterm2": ["+L", "+W", "+A"]}[shape["style"]]
         spec_style = methods[eng.choice("method", len(methods))]
         full_spec = "1.1" + spec + spec_style
+        op = shape["op"]
+        if op == "still":
+            # the default, dynamic size setting: evaluated for each render, the setting itself must survive (also a failing render)
+            image._size = common.Size.FIT
+            type(image)._valid_size = lambda self_, *a, **k: (1, 1)
         size0 = image.size
         n = shape["frames"]
         animated = n > 1 and image._is_animated
-        op = shape["op"]
         start = eng.choice("current_frame", n) if op in ("still", "draw_animated") else 0
         if animated and start:
             image.seek(start)
